@@ -69,9 +69,15 @@ IsVar(s) == \E i \in 1..Len(s) : s[i] \in VarWords
 (* An abstract reference: stage (NoStage = relative spelling / no stage), producer, file, method *)
 
 (* compile_reference(producer, filename, method, stage_index) / DataReference.absoluteReference|relativeReference *)
+(* The file part has three states: none (<<>>: "producer:method"), EMPTY (EmptyFile: "producer/:method" -- the   *)
+(* working directory itself, written with a trailing slash; the implementation keeps '' apart from None) and a    *)
+(* path.  EmptyFile is a value of the model, not text: it prints as nothing after the "/".                        *)
+EmptyFile == <<"">>
+FileText(f) == IF f = EmptyFile THEN <<>> ELSE f
+FileOfText(t) == IF t = <<>> THEN EmptyFile ELSE t         \* the text after the "/" that separates producer and file
 PrintRef(r) == (IF r.stage = NoStage THEN <<>> ELSE <<StageWord(r.stage), ".">>)
             \o r.prod
-            \o (IF r.file = <<>> THEN <<>> ELSE <<"/">> \o r.file)
+            \o (IF r.file = <<>> THEN <<>> ELSE <<"/">> \o FileText(r.file))
             \o <<":", r.method>>
 
 (* ParseDataReference: (producer reference, file, method).                                            *)
@@ -83,13 +89,13 @@ ParseDR(s) ==
       meth == After(s, k)
   IN IF body[1] = "/"
        THEN LET j == LastPos(body, "/") IN
-            [pref |-> IF j = 1 THEN <<"/">> ELSE Before(body, j), file |-> After(body, j), method |-> meth[1]]
+            [pref |-> IF j = 1 THEN <<"/">> ELSE Before(body, j), file |-> FileOfText(After(body, j)), method |-> meth[1]]
      ELSE IF ~Has(body, "/")
        THEN [pref |-> body, file |-> <<>>, method |-> meth[1]]
      ELSE LET j == FirstPos(body, "/") IN
           IF Before(body, j) \in ReservedSeqs
             THEN [pref |-> body, file |-> <<>>, method |-> meth[1]]
-            ELSE [pref |-> Before(body, j), file |-> After(body, j), method |-> meth[1]]
+            ELSE [pref |-> Before(body, j), file |-> FileOfText(After(body, j)), method |-> meth[1]]
 Parsable(s) == Count(s, ":") = 1 /\ FirstPos(s, ":") > 1 /\ Len(After(s, FirstPos(s, ":"))) = 1
 
 (* ParseProducerReference(reference, index): (stage, name, hasIndex).                                  *)
@@ -177,7 +183,8 @@ Expand(s, n, ctx) ==
 ReservedBodies == ReservedSeqs
                   \cup {<<w, "/", "f", ".", "txt">> : w \in Reserved}
                   \cup {<<"data", "/", "d", "/", "f", ".", "txt">>, <<"data", "/", "stage1", ".", "x">>,
-                        <<"input", "/", "stage1x", ".", "foo">>, <<"data", "/", "in-", "%(v)s", ".", "txt">>}
+                        <<"input", "/", "stage1x", ".", "foo">>, <<"data", "/", "in-", "%(v)s", ".", "txt">>,
+                        <<"data", "/">>, <<"bin", "/", "d", "/">>}
 AbsBodies == {<<"/", "abs", "/", "p">>, <<"/", "abs", "/", "stage1", ".", "p">>, <<"/", "data">>}
 (* producers with a variable at the start, in the middle, at the end of the first segment, glued to text,    *)
 (* dashes, digits, next to a dot, two variables, and behind a look-alike of a stage prefix                     *)
@@ -348,16 +355,17 @@ NamesFull == {
    <<"data", ".", "x">>, <<"datax">>, <<"name0">>,              \* look-alikes of folders
    <<"c">>, <<"name">>, <<"pkg">>, <<"n", ".", "m">>, <<"lib">> }   \* called like folders of some contexts
 FilesFull == { <<>>, <<"f", ".", "txt">>, <<"*", ".", "txt">>, <<"d", "/", "f", ".", "txt">>, <<"d", "/", "*">>,
-               <<"out">>, <<"data", "/", "x">>, <<"stage1", ".", "x">>,
-               <<"%(v)s", ".", "txt">>, <<"d", "/", "out-", "%(v)s", ".", "txt">> }     \* a variable in the file path
-FilesSmall == { <<>>, <<"f", ".", "txt">>, <<"d", "/", "f", ".", "txt">>, <<"d", "/", "*">>, <<"stage1", ".", "x">>,
-                <<"d", "/", "out-", "%(v)s", ".", "txt">> }
+               <<"data", "/", "x">>, <<"stage1", ".", "x">>,
+               <<"d", "/", "out-", "%(v)s", ".", "txt">>,                               \* a variable in the file path
+               EmptyFile, <<"d", "/">> }                           \* "producer/:method" and a directory with a trailing "/"
+FilesSmall == { <<>>, <<"d", "/", "f", ".", "txt">>, <<"d", "/", "*">>, <<"stage1", ".", "x">>,
+                <<"d", "/", "out-", "%(v)s", ".", "txt">>, EmptyFile }
 MethodsAll == {"copy", "link", "ref", "copyout", "extract", "output", "loopref", "loopoutput"}
 MethodsSmall == {"ref", "copy", "output"}
 MethodsTwo == {"ref", "copyout"}
 MethodsOne == {"ref"}
 FilesTwo == { <<>>, <<"d", "/", "f", ".", "txt">> }
-FilesThree == { <<>>, <<"d", "/", "f", ".", "txt">>, <<"d", "/", "out-", "%(v)s", ".", "txt">> }
+FilesThree == { <<>>, <<"d", "/", "out-", "%(v)s", ".", "txt">>, EmptyFile }
 
 (* manifest keys of depth 1, 2 and 3; a deeper key whose top-level folder is / is not declared by a shallower key;  *)
 (* keys with a trailing separator; keys whose top-level folder looks like a reserved folder or like a component     *)
